@@ -121,6 +121,9 @@ pub struct Case {
     pub rng: u64,
     /// probability (percent) of staying with the actor released last, fallback chooser
     pub sticky: u64,
+    /// directed prefix of the schedule: `(actor, point)` = keep releasing threads of `actor`
+    /// until one of them waits at `point` (`end` = until it has nothing enabled)
+    pub script: Vec<(usize, String)>,
 }
 
 pub const ALL_GATES: &[&str] = &[
@@ -148,14 +151,15 @@ impl Case {
     pub fn to_sexp(&self) -> String {
         let cmds = |v: &Vec<Cmd>| v.iter().map(|c| c.desc()).collect::<Vec<_>>().join(" ");
         format!(
-            "(case {} (gate {}) (setup {}) (actors {}) (sched {}) (rng {}) (sticky {}))",
+            "(case {} (gate {}) (setup {}) (actors {}) (sched {}) (rng {}) (sticky {}) (script {}))",
             self.id,
             self.gate.join(" "),
             cmds(&self.setup),
             self.actors.iter().map(|a| format!("({})", cmds(a))).collect::<Vec<_>>().join(" "),
             self.sched.iter().map(|c| c.to_string()).collect::<Vec<_>>().join(" "),
             self.rng,
-            self.sticky
+            self.sticky,
+            self.script.iter().map(|(a, p)| format!("{a}:{p}")).collect::<Vec<_>>().join(" ")
         )
     }
     pub fn parse(line: &str) -> Case {
@@ -170,6 +174,7 @@ impl Case {
             sched: vec![],
             rng: 0,
             sticky: 0,
+            script: vec![],
         };
         for f in &l[2..] {
             let f = f.as_list().unwrap();
@@ -192,6 +197,14 @@ impl Case {
                 "sched" => c.sched = atoms().map(|a| a.parse().unwrap()).collect(),
                 "rng" => c.rng = atoms().next().unwrap().parse().unwrap(),
                 "sticky" => c.sticky = atoms().next().unwrap().parse().unwrap(),
+                "script" => {
+                    c.script = atoms()
+                        .map(|a| {
+                            let (x, y) = a.split_once(':').unwrap();
+                            (x.parse().unwrap(), y.to_string())
+                        })
+                        .collect()
+                }
                 other => panic!("bad case field {other}"),
             }
         }
@@ -769,6 +782,7 @@ async fn run_case_async(case: &Case, dir: &Path) -> Outcome2 {
     let mut rng = Rng::new(case.rng);
     let mut sched_pos = 0usize;
     let mut last_actor = usize::MAX;
+    let mut script_pos = 0usize;
 
     // phase 1: the setup actor (actor 0) alone; phase 2: the concurrent actors (1..)
     for phase in 0..2 {
@@ -824,8 +838,34 @@ async fn run_case_async(case: &Case, dir: &Path) -> Outcome2 {
                 break;
             }
             let n = enabled.len();
+            // directed prefix
+            let mut scripted: Option<usize> = None;
+            if phase == 1 {
+                while script_pos < case.script.len() {
+                    let (sa, sp) = &case.script[script_pos];
+                    let cand = with_state(|s| {
+                        let at_target = s.threads.iter().any(|t| {
+                            t.actor == *sa && t.gate.as_ref().map(|g| &g.0 == sp).unwrap_or(false)
+                        });
+                        if at_target {
+                            return None;
+                        }
+                        (0..n).find(|i| s.threads[enabled[*i]].actor == *sa)
+                    })
+                    .unwrap();
+                    match cand {
+                        Some(c) => {
+                            scripted = Some(c);
+                            break;
+                        }
+                        None => script_pos += 1,
+                    }
+                }
+            }
             let choice = if phase == 0 {
                 0
+            } else if let Some(c) = scripted {
+                c
             } else if sched_pos < case.sched.len() {
                 let c = case.sched[sched_pos] % n;
                 sched_pos += 1;
